@@ -29,7 +29,7 @@ FRIENDLY = [("rho_init", "1/256"), ("delta_init", "1/64"), ("eps_abs", "1/1024")
 def rnd_small(rng, lo=-3, hi=3, den=(1, 1, 1, 2)):
     return Fr(rng.randint(lo, hi), rng.choice(den))
 
-def gen_problem(rng, n=None, p=None, m=None, convex=True, wellposed=True, sparse_prob=0.3, bound_kinds=None, inf_h=0.0):
+def gen_problem(rng, n=None, p=None, m=None, convex=True, wellposed=True, sparse_prob=0.3, bound_kinds=None, inf_h=0.0, special=None, strict_convex=False):
     """returns dict of blocks; with wellposed=True a strictly feasible point x0 exists with margin 1"""
     n = n if n is not None else rng.randint(1, 4)
     p = p if p is not None else rng.choice([0, 0, 1, 1, 2]) if n > 1 else rng.choice([0, 0, 1])
@@ -71,7 +71,23 @@ def gen_problem(rng, n=None, p=None, m=None, convex=True, wellposed=True, sparse
         elif kd == "cross": lb.append(x0[i] + mg); ub.append(x0[i] - mg)
         elif kd == "biglb": lb.append("-2000000000000000000000000000000000"); ub.append(x0[i] + mg)
         else: raise ValueError(kd)
-    return with_patterns({"n": n, "p": p, "m": m, "P": P, "c": c, "A": A, "b": b, "G": G, "h": h, "lb": lb, "ub": ub, "kinds": kinds, "x0": x0})
+    if special is None: special = rng.random()
+    tags = []
+    if special < 0.12 and n >= 2 and not strict_convex:
+        # a variable that enters only linearly: row/column k of P is zero, so the stored (sparse) P has NO diagonal entry in column k
+        # (exercises the diagonal-insertion paths of create_kkt_matrix); the variable is boxed so the problem stays bounded
+        k = rng.randrange(n)
+        for i in range(n): P[i][k] = Fr(0); P[k][i] = Fr(0)
+        mg = rng.choice([Fr(1), Fr(2)])
+        lb[k] = x0[k] - mg; ub[k] = x0[k] + mg; kinds[k] = "both"; tags.append("Pnodiag%d" % k)
+    elif special < 0.2 and m > 0:
+        # entries beyond the Ruiz clamps (1e-4, 1e4): a huge and a tiny column
+        j = rng.randrange(n)
+        f = rng.choice([Fr(10) ** 5, Fr(1, 10 ** 5)])
+        for i in range(m): G[i][j] *= f
+        if wellposed: h = [sum(G[i][j_] * x0[j_] for j_ in range(n)) + Fr(1) if not isinstance(h[i], str) else h[i] for i in range(m)]
+        tags.append("clamp")
+    return with_patterns({"n": n, "p": p, "m": m, "P": P, "c": c, "A": A, "b": b, "G": G, "h": h, "lb": lb, "ub": ub, "kinds": kinds, "x0": x0, "gen_tags": tags})
 
 def pattern_of(M, rows, cols):
     return sorted((i, j) for i in range(rows) for j in range(cols) if M[i][j] != 0)
